@@ -83,7 +83,7 @@ Definition exec_nested (n : nested) : M1 (bool * (N * N * bool)) :=
     let h := hs s in
     let x := h_ext h in
     let ih := with_ext (with_balance (with_actions (with_logs (with_state h []) []) []) (h_balance h))
-                (mkExt [] [n_param n] (fresh_generation (x_is x)) (x_rp x) (x_entrypoint x) [] [] false false) in
+                (mkExt [] [n_param n] (fresh_generation (x_is x)) (x_rp x) (x_entrypoint x) [] [] false false []) in
     let ih := mkHost false [] [] [] (n_param n) (h_policy h) (h_limit h) (h_maxparam h) MAX_ACTIVATION_FRAMES
                 (h_slot_time h) (h_origin h) (h_invoker h) (h_owner h) (h_self_index h) (h_self_sub h)
                 (h_balance h) (h_sender h) (h_ext ih) in
@@ -97,7 +97,9 @@ Definition exec_nested (n : nested) : M1 (bool * (N * N * bool)) :=
     if (cls =? 0) && n_commit n then
       let is0 := x_is x in
       let is1 := x_is ix in
-      let x' := with_is x (mkIS (is_gen is0) (is_entries is1) (is_emap is0) (is_iters is0) (is_locks is1) (is_changed is0)) in
+      (* the outer execution continues on the nested generation: its expanded nodes are the nested run's *)
+      let x' := with_exp (with_is x (mkIS (is_gen is0) (is_entries is1) (is_emap is0) (is_iters is0) (is_locks is1) (is_changed is0)))
+                         (x_exp ix) in
       (mkSt (energy s) (mem s) (evs s) (with_ext h x'), Ok (true, res))
     else (s, Ok (false, res)).
 
@@ -107,7 +109,11 @@ Definition apply_hooks (r : rsp) : M1 unit :=
   let s' := match r_setlock r with
             | Some (k, c) => mkIS (is_gen s) (is_entries s) (is_emap s) (is_iters s) (lock_set k c (is_locks s)) (is_changed s)
             | None => s end in
-  set_x (with_is x s').
+  (* a lock count forced to 0 unlocks the subtree of a live iterator: its walk is then outside the model *)
+  let x1 := match r_setlock r with
+            | Some (_, 0) => with_flags x (x_unspec x) true
+            | _ => x end in
+  set_x (with_is x1 s').
 Definition apply_pad (r : rsp) : M1 unit :=
   x <- get_x ;;
   let len := lenN (x_params x) in
@@ -180,7 +186,7 @@ Definition init_host (sc : script) : H1 :=
          (mkExt [] [s_param sc]
                 (mkIS 0 (if s_init sc then [] else map (fun kv => mkEntry (fst kv) (Some (snd kv)) false) (s_kv0 sc))
                       [] [] [] false)
-                (rparams_of (s_pv sc)) [114; 101; 99; 118] (s_digests sc) [] false false).
+                (rparams_of (s_pv sc)) [114; 101; 99; 118] (s_digests sc) [] false false []).
 
 Definition init_st (sc : script) (e : N) : st H1 :=
   mkSt e (apply_data (mkMem (s_pages sc * 65536) []) (s_data sc)) [] (init_host sc).
